@@ -28,3 +28,12 @@
 (define-fun rb_gt ((s Iface) (a Iface) (b Iface)) Bool
   (ite (= (i_tag s) tag$schema.DrbSlice) (fp.gt (ub$F64 (i_box a)) (ub$F64 (i_box b)))
        (> (ub$Int (i_box a)) (ub$Int (i_box b)))))
+; source text of a compiled regular expression (regexp.Regexp.String())
+(declare-fun re_source (Int) String)
+; decimal64 (RFC 6020 9.3): dec64_ok(s, fd) is acceptance by the lexical / 64-bit check validateDecimal64String;
+; the float64 nearest to the literal is what the range comparison uses (strconv.ParseFloat: "the nearest
+; floating-point number rounded using IEEE754 unbiased rounding"). A decimal literal never parses to NaN.
+(declare-fun ext$strconv.ParseFloat$0 (String Int) F64)
+(define-fun parse_float ((s String)) F64 (ext$strconv.ParseFloat$0 s 64))
+(declare-fun dec64_ok (String Int) Bool)
+(assert (forall ((s String) (fd Int)) (! (=> (dec64_ok s fd) (not (fp.isNaN (parse_float s)))) :pattern ((dec64_ok s fd)))))
